@@ -1071,7 +1071,18 @@ func c16r13(p *Program, r *Report) {
 		}
 		info := fi.Pkg.TypesInfo
 		isMut := func(c *ast.CallExpr) bool {
-			return isCallTo(info, c, "(*cowHostList).add", "(*cowHostList).remove", "(*cowHostList).update", "(*cowHostList).set")
+			if isCallTo(info, c, "(*cowHostList).add", "(*cowHostList).remove", "(*cowHostList).update", "(*cowHostList).set") {
+				return true
+			}
+			// a change handed in by the caller: a function-typed parameter applied to the host list
+			if id, isId := ast.Unparen(c.Fun).(*ast.Ident); isId {
+				if v, isVar := info.Uses[id].(*types.Var); isVar {
+					if sig, isSig := v.Type().Underlying().(*types.Signature); isSig && sig.Params().Len() == 1 && typeNameOf(sig.Params().At(0).Type()) == "cowHostList" {
+						return true
+					}
+				}
+			}
+			return false
 		}
 		hasMut := false
 		for _, c := range callsIn(fi.Decl.Body) {
